@@ -44,6 +44,11 @@ def iarr(shape, seed, lo=-4, hi=5):
     return {"shape": list(shape), "data": lcg_data(prod(shape), seed, lo, hi)}
 
 
+def mix(i):
+    """decorrelates variant choices from the enumeration index (the axes of a product have small periods)"""
+    return ((i + 1) * 2654435761 & 0xffffffff) >> 9
+
+
 def divisors(n):
     return [d for d in range(1, n + 1) if n % d == 0]
 
@@ -158,11 +163,11 @@ def enum_conv1d(tier):
                 if conv_out_extent(L, K, s, p, d) <= 0:
                     continue
                 # spell default values as None on alternating points so that both argument types are used
-                h = (idx // step)
+                h = mix(idx)
                 sv = spell((s,), 1, h & 1)
                 pv = spell((p,), 0, h & 2)
                 dv = spell((d,), 1, h & 4)
-                gd = (G == 1 and sv is None and pv is None and dv is None and bool(h & 8))
+                gd = (G == 1 and sv is None and pv is None and dv is None)
                 yield conv_case(1, N, Cin, Cout, G, [L], [K], sv, pv, dv, bias, idx, groups_default=gd, ev=(h % 4 == 0))
 
 
@@ -205,20 +210,23 @@ def enum_pool(tier):
         idx += 1
         if idx % step:
             continue
-        h = idx // step
-        yield pool_case(op, prefixes[h % 3], H, W, (kh, kw), (sh, sw), ceil, idx, dt=("i32" if h % 2 else "f64"), ev=(h % 4 == 0))
+        h = mix(idx)
+        yield pool_case(op, prefixes[h % 3], H, W, (kh, kw), (sh, sw), ceil, idx, dt=("i32" if (h >> 4) & 1 else "f64"), ev=((h >> 6) % 4 == 0))
 
 
 def enum_softmax(tier):
     emax = 4 if tier == "thorough" else 3
     idx = 0
-    for shape in small_shapes(1, 4, emax):
+    for shape in itertools.chain(small_shapes(1, 3, emax), small_shapes(4, 4, 3)):
         d = len(shape)
         for axis in range(-d, d):
             for op in ("softmax", "softmin"):
                 for dt in ("f64", "i32"):
                     idx += 1
-                    yield softmax_case(op, shape, axis, idx, dt, ev=(idx % 4 == 0))
+                    # quick: integer input on every 3rd point; dim-4 sources (0.05 s each under ASan) on every 3rd point
+                    if tier != "thorough" and ((dt == "i32" and mix(idx) % 3) or (d == 4 and (mix(idx) >> 5) % 3)):
+                        continue
+                    yield softmax_case(op, shape, axis, idx, dt, ev=(mix(idx) % 4 == 0))
 
 
 EPS_CHOICES = (None, 1e-5, 1e-3)
@@ -250,6 +258,9 @@ def enum_norms(tier):
                     for rest in small_shapes(dim - 2, dim - 2, emax):
                         for eps in EPS_CHOICES[:2]:
                             idx += 1
+                            # quick: dim-4 inputs (0.2 s each: every lazy element re-reduces its group) on every 4th point
+                            if tier != "thorough" and dim == 4 and mix(idx) % 4:
+                                continue
                             yield group_norm_case([N, C] + rest, G, eps, idx)
 
 
@@ -266,6 +277,11 @@ def enum_linear(tier):
                     yield linear_case(batch, nin, nout, bias, idx)
     for batch in batches:
         for n1, n2, nout, bias in itertools.product((1, 2, 3), (1, 2, 3), (1, 2), (False, True)):
+            idx += 1
+            yield bilinear_case(batch, n1, n2, nout, bias, idx)
+    # 4-D operands (three batch dims), as in the repository's bilinear case4a
+    for batch in small_shapes(3, 3, 2):
+        for n1, n2, nout, bias in ((1, 1, 1, False), (2, 3, 2, True), (3, 2, 1, False)):
             idx += 1
             yield bilinear_case(batch, n1, n2, nout, bias, idx)
 
@@ -355,9 +371,16 @@ def finding_of(case):
         d = a["dilation"]
         if isinstance(d, list) and d[0] != d[1]:
             return "C17-conv2d-dilation-pair-reversed"
+    elif op == "bilinear":
+        if any(e != 1 for e in case["arrays"][0]["shape"][1:-2]):
+            return "C17-bilinear-middle-batch-dims"
     elif op.endswith("pool2d"):
         if "ceil_window_would_start_outside" in pool_traits(case):
             return "C17-pool-ceil-window-starts-outside"
+        if op == "max_pool2d":
+            r = refs_nn.pool2d(refs.make_array(case["arrays"][0]), a["kernel_size"], a["stride"], bool(a["ceil_mode"]), "max")
+            if (r < 0).any():
+                return "C17-max-pool-negative-window"
     return None
 
 
@@ -367,8 +390,11 @@ _KNOWN_IDS = None
 def _known_ids():
     global _KNOWN_IDS
     if _KNOWN_IDS is None:
+        import os
         from ..core import load_known
         _KNOWN_IDS = {e["id"] for e in load_known("C17") if e.get("status") == "known"}
+        # debugging aid: NMV_C17_EXCLUDE=id1,id2 treats these finding classes as already recorded
+        _KNOWN_IDS |= {x for x in os.environ.get("NMV_C17_EXCLUDE", "").split(",") if x}
     return _KNOWN_IDS
 
 
@@ -386,19 +412,27 @@ class C17(Prop):
                    "avg_pool2d divides by the in-bounds element count (PyTorch with padding=0; documented by the repository's test data)",
                    "ceil_mode: a window that would start outside the input is dropped (PyTorch rule)",
                    "batch_norm channel axis = -3 ((N,C,H,W) / (C,H,W) as documented in the header); dim-2 inputs are outside its documented domain",
-                   "float comparison tolerance: 1e-6 relative (double results), 1e-4 (float results); exact for conv/linear/bilinear/max_pool"]
+                   "float comparison tolerance: 1e-6 relative (double results), 1e-4 (float results); exact for conv/linear/bilinear/max_pool",
+                   "input classes of findings recorded for C17 in known_findings.json (status known; ids = finding_of()) are excluded by "
+                   "construction, their witnesses are replayed on every run"]
     chunk = 60
 
     # ---- exhaustive ----------------------------------------------------
     def exhaustive_space(self, tier):
         return ("conv1d: N1..2 x Cin,Cout 1..4 x groups|gcd x L1..7 x K1..3 x s1..3 x p0..2 x d1..2 x bias (%s); conv2d sample; "
-                "pool2d H,W1..7 x k1..3 x s1..3 x ceil x {max,avg} (%s); softmax/softmin dims1..4 ext1..%d all axes; norms dim2..4 ext1..3; "
-                "linear/bilinear/pairwise_distance/cosine_similarity small shapes"
-                % (("all points", "all points", 4) if tier == "thorough" else ("every 7th point", "every 5th point", 3)))
+                "pool2d H,W1..7 x k1..3 x s1..3 x ceil x {max,avg} (%s); softmax/softmin dims1..3 ext1..%d + dim4 ext1..3, all axes; norms dim2..4 ext1..3; "
+                "linear/bilinear/pairwise_distance/cosine_similarity small shapes%s"
+                % (("all points", "all points", 4, "") if tier == "thorough" else
+                   ("every 7th point", "every 5th point", 3, " (quick: distances every 2nd point, dim-4 softmax every 3rd, dim-4 group_norm every 4th)")))
 
     def exhaustive(self, tier):
-        gens = [enum_conv1d(tier), enum_conv2d(tier), enum_pool(tier), enum_softmax(tier), enum_norms(tier), enum_linear(tier),
-                enum_dist(tier)]
+        def thin(g, k):
+            # deterministic 1-in-k subsample (quick tier only)
+            for i, c in enumerate(g):
+                if tier == "thorough" or mix(i) % k == 0:
+                    yield c
+        gens = [enum_conv1d(tier), enum_conv2d(tier), enum_pool(tier), enum_softmax(tier), enum_norms(tier),
+                enum_linear(tier), thin(enum_dist(tier), 2)]
         # interleave so that every chunk mixes cheap and expensive cases
         live = list(gens)
         while live:
@@ -413,7 +447,7 @@ class C17(Prop):
 
     # ---- random ----------------------------------------------------------
     def n_random(self, tier):
-        return 4200 if tier == "quick" else 120000
+        return 2800 if tier == "quick" else 120000
 
     def strategy(self, tier):
         class Draw:
@@ -453,7 +487,7 @@ class C17(Prop):
                 L = r.randint(max(1, d * (K - 1) + 1 - 2 * p), 9)
                 bits = r.randint(0, 15)
                 sv, pv, dv = spell((s,), 1, bits & 1), spell((p,), 0, bits & 2), spell((d,), 1, bits & 4)
-                gd = G == 1 and sv is None and pv is None and dv is None and bool(bits & 8)
+                gd = G == 1 and sv is None and pv is None and dv is None
                 return conv_case(1, N, Cin, Cout, G, [L], [K], sv, pv, dv, draw(st.booleans()), seed, groups_default=gd, ev=draw(st.booleans()))
             if fam == "conv2d":
                 return rand_conv2d(r, seed, ev=(r.randint(0, 3) == 0))
@@ -465,7 +499,7 @@ class C17(Prop):
                 return pool_case(r.choice(["max_pool2d", "avg_pool2d"]), prefix, H, W, k, s, draw(st.booleans()), seed,
                                  dt=r.choice(["i32", "f64"]), ev=draw(st.booleans()))
             if fam == "softmax":
-                sh = shape(r, 1, 4, 6)
+                sh = shape(r, 1, 4, 6, cap=200)
                 return softmax_case(r.choice(["softmax", "softmin"]), sh, r.randint(-len(sh), len(sh) - 1), seed, r.choice(["i32", "f64"]),
                                     ev=draw(st.booleans()))
             if fam == "batch_norm":
@@ -480,7 +514,7 @@ class C17(Prop):
             if fam == "group_norm":
                 C = r.randint(1, 6)
                 G = r.choice(divisors(C))
-                return group_norm_case([r.randint(1, 3), C] + (shape(r, 1, 2, 4) if draw(st.booleans()) else []), G, eps, seed)
+                return group_norm_case([r.randint(1, 2), C] + (shape(r, 1, 2, 3) if draw(st.booleans()) else []), G, eps, seed)
             if fam == "linear":
                 batch = shape(r, 1, 3, 4) if draw(st.booleans()) else []
                 nin = r.randint(1, 6)
